@@ -190,6 +190,22 @@ def run(ck):
              "Pervaporation.non_ideal_diffusion_curve", "DiffusionCurve.__attrs_post_init__", "DiffusionCurve.get_separation_factor",
              "Measurements.from_diffusion_curve_first", "Measurements.from_diffusion_curve_second", "Composition.to_weight", "Composition.to_molar"]
     purity(ck, repo, [repo.find_function(x) for x in names] + process_functions(repo))
+    # B6: a stored curve keeps a composition's value and its basis label together: both columns of the table DiffusionCurve.save
+    # writes come from the same composition object, unconverted (a value converted on one side only is read back on the other
+    # basis). Read from the values the evaluator computes for save() (the C17 machinery).
+    from .c17 import writer_table
+    DC = repo.find_class("DiffusionCurve")
+    sv = DC.methods.get("save")
+    if sv is not None:
+        ck.analysed_function(sv)
+        tbl, order, kinds, where_w = writer_table(ck.scoped("stored curve"), repo, sv)
+        val_cols = [c for c, sl in tbl.items() if sl is not None and sl.field == "feed_compositions" and sl.selector.replace(".first", ".p") == ".p"]
+        lab_cols = [c for c, sl in tbl.items() if sl is not None and sl.field == "feed_compositions" and sl.selector == ".type"]
+        ck.ob("B6", sv.qualname, "a stored curve writes each feed composition's own value next to its own basis label", where_w,
+              len(val_cols) == 1 and len(lab_cols) == 1,
+              "the stored number and the stored basis label must both be the composition's own fields: a value converted before it is "
+              "written, under the label of the unconverted one, is re-converted on loading",
+              found="value column(s) %s, label column(s) %s; composition <- %s" % (val_cols, lab_cols, tbl.get("composition")))
     ck.exhaustive = True
     ck.assume("Composition.to_molar / to_weight are mutually inverse (C15) and the activity model converts its input (C04-A1)")
 
